@@ -78,10 +78,14 @@ pub fn chan_infos(w: &World, chans: &[ChannelId]) -> Vec<ChanInfo> {
 
 // -------------------------------------------------------------------------------------------------
 /// Honest operation never ends in a protocol error, warning, disconnect request or force-closure.
+#[derive(Default)]
 pub struct NoErrorOracle {
 	/// closure by a *requested* cooperative shutdown is fine
 	pub allow_coop: bool,
 	pub allow_force_by_user: bool,
+	/// nodes that have broadcast a cooperative closing transaction, and whether their connection dropped afterwards
+	pub coop_broadcast: std::collections::BTreeSet<usize>,
+	pub dropped_after_coop: std::collections::BTreeSet<usize>,
 }
 
 impl Oracle for NoErrorOracle {
@@ -91,8 +95,26 @@ impl Oracle for NoErrorOracle {
 	fn observe(&mut self, _w: &World, obs: &[Obs]) -> Result<(), Failure> {
 		for o in obs {
 			match o {
+				Obs::Broadcast { node, b, .. } if b.kinds.iter().any(|k| k == "CooperativeClose") => {
+					self.coop_broadcast.insert(*node);
+				},
+				Obs::Disconnected { a, b } => {
+					for n in [*a, *b] {
+						if self.coop_broadcast.contains(&n) {
+							self.dropped_after_coop.insert(n);
+						}
+					}
+				},
 				Obs::Sent { from, to, wire: Wire::Error(m) } => {
 					if !self.allow_force_by_user {
+						if self.dropped_after_coop.contains(from) && m.data.contains("No such channel_id") {
+							// the legacy closing_signed exchange is not atomic: the node that completed it has
+							// forgotten the channel, its peer never got the final closing_signed
+							return Err(Failure::new(
+								"no-protocol-error",
+								format!("fields=[error-after-own-cooperative-close-whose-final-closing_signed-was-lost]: node {} completed the cooperative close and broadcast the closing transaction, the connection dropped before its final closing_signed reached node {}, and on reconnection it answers the peer's channel_reestablish with an error: {}", from, to, m.data),
+							));
+						}
 						return Err(Failure::new("no-protocol-error", format!("node {} sent error to {}: {}", from, to, m.data)));
 					}
 				},
@@ -1448,6 +1470,20 @@ impl Oracle for ForwardOracle {
 	}
 }
 
+
+/// Does `node` still list the payment with this id among its recent payments / have an HTLC of it in flight?
+pub fn payment_listed_or_in_flight(w: &World, node: usize, id: &lightning::ln::channelmanager::PaymentId, hash: &lightning::types::payment::PaymentHash) -> bool {
+	use lightning::ln::channelmanager::RecentPaymentDetails as R;
+	let listed = w.nodes[node].cm.list_recent_payments().iter().any(|r| match r {
+		R::AwaitingInvoice { payment_id } => payment_id == id,
+		R::Pending { payment_id, .. } => payment_id == id,
+		R::Fulfilled { payment_id, .. } => payment_id == id,
+		R::Abandoned { payment_id, .. } => payment_id == id,
+	});
+	let in_flight = w.nodes[node].cm.list_channels().iter().any(|c| c.pending_outbound_htlcs.iter().any(|h| h.payment_hash == *hash));
+	listed || in_flight
+}
+
 /// A payment was reported both PaymentSent and PaymentFailed. Names the history when it is the one
 /// the library documents ("in exceedingly rare cases ... PaymentFailed after PaymentSent"): the
 /// PaymentSent event was handled, the sender then restarted from a manager written before the
@@ -1634,9 +1670,7 @@ impl Oracle for SenderOracle {
 			}
 			if p.failed_by_recipient && failed == 0 {
 				let restarted = w.obs.iter().any(|o| matches!(o, Obs::Restarted { node, .. } if *node == self.sender));
-				let listed = !w.nodes[self.sender].cm.list_recent_payments().is_empty();
-				let pending_htlcs: usize = w.nodes[self.sender].cm.list_channels().iter().map(|c| c.pending_outbound_htlcs.len()).sum();
-				if restarted && !listed && pending_htlcs == 0 {
+				if restarted && !payment_listed_or_in_flight(w, self.sender, &p.id, &p.hash) {
 					// restarted from a manager older than the send: the payment is not listed, nothing is in
 					// flight and it can never complete – the property asks for nothing more
 					label.push('0');
